@@ -1,6 +1,6 @@
 // API-level properties on the unified djinterop API (san variant: g++ ASan+UBSan, _GLIBCXX_ASSERTIONS, asserts on).
 #include "common/bigalloc.hpp"
-#include "api_persist.hpp"
+#include "api_regress.hpp"
 
 int main(int argc, char** argv)
 {
@@ -25,5 +25,6 @@ int main(int argc, char** argv)
     add("C11", api::prop_c11, 3, 16, 260);
     add("C15", api::prop_c15, 3, 24, 260);
     add("C16", api::prop_c16, 3, 16, 260);
+    add("REG", api::prop_reg, 1, 1, 2, 120);
     return vf::pbt_main(argc, argv, specs);
 }
